@@ -161,6 +161,19 @@ static int narrow(int width, int n){ nd_n=n; atomic_fetch_add(&expected,n);
   for(long i=0;i<n;i++){ dispatch_async_f(Q[1],(void*)i,nd_item); if(i%64==0 && rnd()%4==0) usleep(rnd()%200); }
   for(int i=0;i<2;i++) pthread_join(sc[i],0);
   (void)width; return n; }
+// ---- narrow mode with barriers (width given negative): the width-limited concurrent queue is kept saturated with asynchronous readers
+// while two threads add dispatch_sync readers (a drainer that has run out of width hands them on) and one thread submits
+// dispatch_barrier_sync items: a barrier never runs while a reader does, whatever the drainer's own width accounting is at that moment.
+static atomic_int nb_readers, nb_in_barrier, nb_stop; static atomic_long nb_done;
+static void nb_reader(void *c){ (void)c; atomic_fetch_add(&nb_readers,1); if(atomic_load(&nb_in_barrier)) fail("narrow concurrent queue: a reader started while a barrier item was running",0,0,0);
+  for(volatile int k=0;k<(int)(500+rnd()%3000);k++){} atomic_fetch_sub(&nb_readers,1); atomic_fetch_add(&nb_done,1); atomic_fetch_add(&done_items,1); }
+static void nb_barrier(void *c){ (void)c; atomic_store(&nb_in_barrier,1); int r=atomic_load(&nb_readers); if(r) fail("narrow concurrent queue: a barrier item started while readers were still running: readers",r,0,0);
+  for(volatile int k=0;k<800;k++){} r=atomic_load(&nb_readers); if(r) fail("narrow concurrent queue: a reader started while a barrier item was running: readers",r,0,0); atomic_store(&nb_in_barrier,0); atomic_fetch_add(&done_items,1); }
+static void *nb_sync_client(void *a){ long n=(long)a; for(long i=0;i<n && !viol;i++){ atomic_fetch_add(&expected,1); dispatch_sync_f(Q[1],0,nb_reader); if(rnd()%4==0) usleep(rnd()%60); } return 0; }
+static void *nb_barrier_client(void *a){ long n=(long)a; for(long i=0;i<n && !viol;i++){ atomic_fetch_add(&expected,1); dispatch_barrier_sync_f(Q[1],0,nb_barrier); usleep(50+rnd()%300); } return 0; }
+static int narrow_barriers(int width, int n){ (void)width; pthread_t sc[3]; for(int i=0;i<2;i++) pthread_create(&sc[i],0,nb_sync_client,(void*)(long)(n/4)); pthread_create(&sc[2],0,nb_barrier_client,(void*)(long)(n/16));
+  for(long i=0;i<n && !viol;i++){ atomic_fetch_add(&expected,1); dispatch_async_f(Q[1],0,nb_reader); if(i%32==0 && rnd()%3==0) usleep(rnd()%150); }
+  for(int i=0;i<3;i++) pthread_join(sc[i],0); return n; }
 int main(int argc, char **argv){
   signal(SIGILL,on_crash); signal(SIGSEGV,on_crash); signal(SIGABRT,on_crash); signal(SIGBUS,on_crash);
   seed = argc>1 ? strtoull(argv[1],0,0) : 1; int nthr = argc>2 ? atoi(argv[2]) : 4; nops = argc>3 ? atoi(argv[3]) : 200; serial_only = argc>4 ? atoi(argv[4]) : 0;
@@ -170,7 +183,8 @@ int main(int argc, char **argv){
   dispatch_queue_t MID = chain==2 ? dispatch_queue_create("m", DISPATCH_QUEUE_CONCURRENT) : NULL;
   Q[1] = MID ? dispatch_queue_create_with_target("c", DISPATCH_QUEUE_CONCURRENT, MID) : dispatch_queue_create("c", DISPATCH_QUEUE_CONCURRENT);
   Q[0] = chain ? dispatch_queue_create_with_target("s", DISPATCH_QUEUE_SERIAL, Q[1]) : dispatch_queue_create("s", DISPATCH_QUEUE_SERIAL);
-  int width = argc>6 ? atoi(argv[6]) : 0;     // > 0: narrow mode (the concurrent queue is limited to this width)
+  int width = argc>6 ? atoi(argv[6]) : 0;     // > 0: narrow mode (the concurrent queue is limited to this width); < 0: narrow mode with barriers
+  int with_barriers = width<0; if(with_barriers) width=-width;
   if(width>0){ dispatch_queue_set_width(Q[1],width); dispatch_barrier_sync(Q[1],^{}); }
   for(int i=0;i<NQ;i++){ stateoff[i]=(long)((char*)_dispatch_verif_queue_state_addr(Q[i])-(char*)Q[i]); printf("Q %d width %d stateoff %ld\n", i, i==0?1:(width>0?width:4094), stateoff[i]); }
   // what the queues look like at rest: suspension, barrier, width in use, pending barrier
@@ -180,7 +194,7 @@ int main(int argc, char **argv){
   _dispatch_verif_yield_cb = ycb; _dispatch_verif_atomic_cb = cb;
   pthread_t wd; pthread_create(&wd,0,watchdog,0);
   pthread_t th[64];
-  if(width>0){ narrow(width,nops*nthr); nthr=0; }
+  if(width>0){ if(with_barriers) narrow_barriers(width,nops*nthr); else narrow(width,nops*nthr); nthr=0; }
   for (int i=0;i<nthr;i++) pthread_create(&th[i],0,client,(void*)(intptr_t)i);
   for (int i=0;i<nthr;i++) pthread_join(th[i],0);
   for (int w=0; w<20000 && atomic_load(&done_items) < atomic_load(&expected); w++) usleep(1000);
